@@ -887,6 +887,28 @@ def gen_inb_case(rng, tier, d=None, mixed_zero=False, all_zero=False):
     return dict(kind='inbreeding', d=d, ns=ns, grids=grids, phi=phi, Fs=Fs, pls=pls, het=het, overshoot=over, phi_kind=pk, bits=bits,
                 mask_corners=bool(rng.random() < 0.5))
 
+FIXED_PLOIDIES = [(2, 4), (4, 2), (2, 2, 4), (2, 4, 2), (4, 2, 2), (2, 4, 6), (2, 6, 4), (4, 2, 6), (4, 6, 2), (6, 2, 4), (6, 4, 2),
+                  (2, 3), (3, 2), (2, 8), (8, 2), (3, 2, 4)]
+def fixed_inb_cases(rng):
+    """deterministic part of the quick tier: 2-D and 3-D inbreeding with pairwise different ploidies per population (every
+    order), sample sizes = 1 or 2 individuals per population, a different F per population"""
+    Fpool = [0.25, 0.5, 0.125, 0.75]
+    out = []
+    for j, pls in enumerate(FIXED_PLOIDIES):
+        d = len(pls)
+        ns = [P * (2 if (P <= 3 and (j + k) % 2 == 0) else 1) for k, P in enumerate(pls)]
+        N = 5 if d == 2 else 4
+        g, _ = gen_grid(rng, N, 12)
+        grids = [g.copy() for _ in range(d)]
+        if j % 3 == 1:
+            grids[-1] = gen_grid(rng, N + 1, 12)[0]
+        phi, pk = gen_phi(rng, grids, 12, kind=['random', 'smooth', 'spiky'][j % 3])
+        phi = np.abs(phi) + 0.125
+        Fs = [Fpool[(j + k) % 4] for k in range(d)]
+        out.append(dict(kind='inbreeding', d=d, ns=ns, grids=grids, phi=phi, Fs=Fs, pls=list(pls), het=None, overshoot=None,
+                        phi_kind=pk, bits=12, mask_corners=False, fixed=True))
+    return out
+
 def call_inb(dadi, c, Fs=None):
     S = dadi.Spectrum
     try:
@@ -947,6 +969,29 @@ def check_inbreeding(chk, ctx, c):
                 chk.fail('from_phi_inbreeding:mask_corners', 'mask_corners=%r not honoured' % c.get('mask_corners'), inp)
             if not (res['fs'].extrap_x == grids[0][1]):
                 chk.fail('from_phi_inbreeding:extrap_x', 'extrap_x %r vs %r' % (res['fs'].extrap_x, grids[0][1]), inp)
+            # marginalise a population after sampling = sample the trapezoid-marginalised density (every axis in turn):
+            # holds iff the sampling probabilities of the removed population sum to one at every grid point
+            if d >= 2 and mode != 'all-zero':
+                for a in range(d):
+                    if c.get('het') and HETKEYS.index(c['het']) < d:
+                        continue
+                    keep = [k for k in range(d) if k != a]
+                    phim = np.trapezoid(phi, np.asarray(grids[a], dtype=float), axis=a)
+                    cm = dict(c, d=d - 1, ns=[ns[k] for k in keep], grids=[grids[k] for k in keep], phi=phim,
+                              Fs=[Fs[k] for k in keep], pls=[pls[k] for k in keep], mask_corners=False)
+                    if all(F == 0 for F in cm['Fs']):
+                        continue
+                    rm = call_inb(dadi, cm)
+                    chk.l3(('inbreeding-marginal', d, a, tuple(pls)))
+                    if rm['err'] or not np.all(np.isfinite(np.asarray(rm['fs'].data))):
+                        chk.fail('from_phi_inbreeding:%dD:marginal:raises' % d, 'sampling the density marginalised over population %d raises / is non-finite (%r)' % (a, rm['err']), inp)
+                        continue
+                    B = np.asarray(rm['fs'].data, dtype=float); A = data.sum(axis=a)
+                    scm = max(float(np.max(np.abs(B))), float(np.max(np.abs(A))), 1e-300)
+                    em = float(np.max(np.abs(A - B)))
+                    if not em <= 10 * tol * scm:
+                        chk.fail('from_phi_inbreeding:%dD:marginal' % d, 'summing the spectrum over population %d (ploidy %d, n=%d, F=%r) differs from sampling the density integrated over that axis by %.3g (scale %.3g): '
+                                 'the sampling probabilities of that population do not sum to one (ploidys=%r)' % (a, pls[a], ns[a], Fs[a], em, scm, pls), inp)
     # ---- K
     if have_driver(ctx) and (finite or res['err'] is not None):
         line = 'inbreeding %s 1 %s %s %s - %s %s' % (c.get('het') or '-', ','.join(map(str, ns)), fmt_grids(grids), fmt_nd(phi), fmt_list(Fs), ','.join(map(str, pls)))
@@ -1092,9 +1137,10 @@ def run(chk, ctx):
                 'identity rows mixed in)}, sample sizes per population from {1, 2, max, uniform 1..max} with max %r (admix: 6/3/2), grids from {uniform, dadi '
                 'default_grid, quadratic, random} with %r points, coarsened to 12/16/20 significant bits or (12%%) full double precision, 15%% with an end point '
                 'moved outside [0,1] by 1e-16 / 1 ulp, densities from %r, mask_corners / pop_ids random; every 4th call is repeated with the same sizes on a look-alike grid (same length, end points, first and last interior point, different nodes in between — what a per-grid cache could confuse); inbreeding: 1-3 dimensions, ploidy from {2,3,4,6,8}, '
-                'sample sizes multiples of the ploidy, F from {2^-6 … 0.9375, random, 1.0 (clamped)}, plus all-zero and mixed zero/non-zero F; refusals: every '
+                'a deterministic block of 2-D/3-D cases with pairwise different ploidies and F per population in every order (FIXED_PLOIDIES), sample sizes multiples of the ploidy, F from {2^-6 … 0.9375, random, 1.0 (clamped)}, plus all-zero and mixed zero/non-zero F; refusals: every '
                 'guard of from_phi once per cycle; non-trivial = distinct (dimension, path, option, over-shoot, density kind, size class)'
                 % (sorted(set(DIMS_W[tier])), NMAX[tier], PTS[tier], PHI_KINDS))
+    chk.rule += '; FIXED_PLOIDIES = %r' % (FIXED_PLOIDIES,)
     chk.unproved = [
         'the F -> 0 limit of the inbreeding path (agreement with the binomial path) is a limit statement: checked numerically (difference proportional to F for F = 1e-2, 1e-3, 1e-4), not proved',
         'BetaBinomln / multinomln work in log space through gammaln / betaln: the model evaluates their exponentials exactly (ratio of rising factorials, factorials); that scipy agrees is validated by correspondence (BetaBinomConvolution, 1e-9 + cancellation allowance), the sums C05_betabinom_sum / C05_conv_sum are proved for the exact values',
@@ -1133,6 +1179,9 @@ def run(chk, ctx):
     k_refusals(chk, ctx, rng, 22 if q else 110)
     l3_paths_agree(chk, ctx, rng, 8 if q else 40)
     # ---- inbreeding
+    for c in fixed_inb_cases(rng):                     # pairwise different ploidies / F per population, every order
+        check_inbreeding(chk, ctx, c)
+        chk.stat('inb:fixed-ploidy-order')
     for it in range(40 if q else 300):
         c = gen_inb_case(rng, tier, mixed_zero=(it % 8 == 3), all_zero=(it % 8 == 5))
         check_inbreeding(chk, ctx, c)
